@@ -340,6 +340,67 @@ fn run_case_inner(p: &mut Puppet, c: &Case) -> Outcome {
     Outcome { respawn, fails, result_kind, saw_non_sigstop_stop, signals_sent: want.len(), fault_hit }
 }
 
+/// A thread that is slow to stop: it sits in vfork's killable-only wait for ~2.5 s when the dump
+/// starts, so the writer's attach does not take effect at once.  Whatever the writer does meanwhile,
+/// once the wait is over nobody may be traced or stopped and the slow thread must run again.
+/// fault: 0 none, 1 destination error at call 5, 2 StopProcess fail point, 3 stop timeout 5 ms
+fn run_slow_stop(fault: u8) -> (Value, Vec<(String, String)>) {
+    let case = json!({"slow_stop": fault});
+    let mut fails = Vec::new();
+    let mut p = Puppet::spawn();
+    p.add_thread(Kind::Block);
+    let (slow_tid, counter) = p.vforkwait(2500);
+    std::thread::sleep(std::time::Duration::from_millis(150));
+    let mut spec = EnvSpec::default();
+    match fault {
+        1 => spec.dest_fault = Some(Fault::ErrAt(5)),
+        2 => spec.failpoints = 1,
+        3 => spec.opts.stop_timeout_ms = Some(5),
+        _ => {}
+    }
+    let t0 = std::time::Instant::now();
+    let out = env_dump(&p, &spec, HashMap::new(), None);
+    let took = t0.elapsed();
+    if let DumpResult::Panic(m) = &out.result {
+        fails.push(("dump-panicked".into(), format!("dump panicked: {m}")));
+    }
+    for t in out.trace.iter().filter(|t| t.key.starts_with("attach:") && t.ret == 0) {
+        let who = &t.key["attach:".len()..];
+        if !out.trace.iter().any(|d| d.key == format!("detach:{who}") && d.ret == 0) {
+            fails.push(("attached-thread-never-detached".into(), format!("thread {who} was attached but no PTRACE_DETACH of it succeeded")));
+        }
+    }
+    let deadline = std::time::Instant::now() + std::time::Duration::from_secs(8);
+    let mut bad: Vec<String>;
+    loop {
+        bad = Vec::new();
+        for tid in p.kernel_tids() {
+            let tracer = p.status_field(tid, "TracerPid").unwrap_or_default();
+            let state = p.status_field(tid, "State").unwrap_or_default();
+            if tracer != "0" && !tracer.is_empty() {
+                bad.push(format!("thread {tid} still has TracerPid {tracer}"));
+            }
+            if state.starts_with('t') || state.starts_with('T') {
+                bad.push(format!("thread {tid} is in state {state}"));
+            }
+        }
+        if p.read_u64(counter) != 1 {
+            bad.push(format!("the slow thread {slow_tid} has not come back from its wait"));
+        }
+        if bad.is_empty() || std::time::Instant::now() > deadline {
+            break;
+        }
+        std::thread::sleep(std::time::Duration::from_millis(5));
+    }
+    if !bad.is_empty() {
+        let k = if bad.iter().any(|b| b.contains("TracerPid")) { "left-attached" } else if bad.iter().any(|b| b.contains("state")) { "left-stopped" } else { "slow-thread-never-resumed" };
+        fails.push((format!("slow-stop/{k}"), format!("dump took {:.1} s; 8 s after it ended: {}", took.as_secs_f64(), bad.join("; "))));
+    } else if p.cmd("ping").is_err() {
+        fails.push(("slow-stop/main-thread-dead".into(), "the control thread does not answer".into()));
+    }
+    (case, fails)
+}
+
 fn placements(n: usize) -> Vec<String> {
     let mut v = vec!["stop#0".to_string(), "open:/proc/P/stat#0".into(), "opendir:/proc/P/task#0".into()];
     for i in 0..n {
@@ -412,6 +473,14 @@ pub fn run(ctx: &Ctx, rep: &mut Report) {
     rep.rule = "fault points (every destination call x {Err, panic}, a hard error mid-dump, every injectable libc answer of the baseline trace, the StopProcess fail point) each with 0 events, and every placement of one signal event (thread-directed SIGUSR1 / SIGRTMIN to each thread, process-directed SIGUSR2) at ~18 syscall boundaries under {no fault, StopProcess fail point, a destination error, an attach failure}; thorough: all pairs of events with different signal numbers at two placements; N in {3, 1}, plus a 5-thread target whose spin threads exit between enumeration and attach and a 4-thread target with a null-stack-pointer thread. nontrivial = runs with at least one signal event or a fault that was actually hit".into();
     rep.assume("the kernel's choice among runnable target threads while the dumper is blocked is not controlled; PTRACE_DETACH/PTRACE_CONT/SIGCONT are never made to fail");
     if let Some(case) = &ctx.replay {
+        if let Some(f) = case.get("slow_stop").and_then(|f| f.as_u64()) {
+            let (c, fails) = run_slow_stop(f as u8);
+            rep.evaluations += 1;
+            for (k, m) in fails {
+                rep.violation(&k, &m, c.clone());
+            }
+            return;
+        }
         let Some(c) = Case::from_json(case) else {
             rep.machinery("bad replay".into());
             return;
@@ -556,6 +625,22 @@ pub fn run(ctx: &Ctx, rep: &mut Report) {
             }
         }
     }
+    // slow-to-stop thread (vfork wait) under four fault contexts
+    let slow: Vec<u8> = vec![0, 1, 2, 3];
+    let sres = par_map(&slow, |_, f| {
+        crate::watch::begin(json!({"slow_stop": f}));
+        let r = run_slow_stop(*f);
+        crate::watch::end();
+        r
+    });
+    for (case, fails) in sres {
+        rep.evaluations += 1;
+        rep.nontrivial += 1;
+        for (k, m) in fails {
+            rep.violation(&k, &m, case.clone());
+        }
+    }
+    rep.set("slow_to_stop_thread_cases", json!(slow.len()));
     let skipped = SKIPPED.load(std::sync::atomic::Ordering::SeqCst);
     if skipped > 0 {
         rep.exhaustive = false;
